@@ -464,6 +464,7 @@ func init() {
 	})
 	regSync()
 	regGob()
+	regWorker()
 }
 
 var timeT types.Type
@@ -533,8 +534,9 @@ func (s *State) hashCongruence(a *hashApp) {
 // ---------- sync ----------
 
 type waitSpec struct {
-	kind int // 0 none, 1 mutex lock, 2 rw lock, 3 rw rlock, 4 wg wait, 5 join
-	p    PtrV
+	kind  int // 0 none, 1 mutex lock, 2 rw lock, 3 rw rlock, 4 wg wait, 5 join, 6 select
+	p     PtrV
+	chans []Value
 }
 
 func (s *State) cellInt(p PtrV, off int) int64 {
@@ -560,6 +562,13 @@ func (s *State) enabled(t *Thread, w waitSpec) bool {
 		return s.cellInt(w.p, 0) == 0
 	case 4:
 		return s.cellInt(w.p, 0) == 0
+	case 6:
+		for _, c := range w.chans {
+			if s.chanReady(c) {
+				return true
+			}
+		}
+		return false
 	case 5:
 		for _, o := range s.threads {
 			if o != t && !o.done && o != s.exiting {
